@@ -40,7 +40,7 @@ def run_one(tag: str, all_checks: bool, workers: int) -> dict:
             return out
         env = dict(os.environ, PYTHONPATH=os.path.join(wt, "src"), VERIF_EVIDENCE_DIR=ev, VERIF_WORKERS=str(workers))
         for c in checks:
-            p = subprocess.run(["timeout", "1800", "/venv/bin/python", "-m", "checks.run", c, "--tier", "quick"], cwd=ROOT, env=env, capture_output=True, text=True)
+            p = subprocess.run(["timeout", "3000", "/venv/bin/python", "-m", "checks.run", c, "--tier", "quick"], cwd=ROOT, env=env, capture_output=True, text=True)
             sigs = sorted({" ".join(w for w in line.split() if w.startswith(("check=", "cause="))) for line in p.stdout.splitlines() if line.startswith("VIOLATION")})
             out["results"][c] = {"exit": p.returncode, "signatures": sigs}
     finally:
